@@ -670,7 +670,7 @@ class AndNotMatcher(BiMatcher):
             return
 
         self.a.skip_to(id)
-        if self.b.is_active():
+        if self.a.is_active() and self.b.is_active():
             self.b.skip_to(id)
             self._find_next()
 
